@@ -1,5 +1,6 @@
 import QR.Model.Render
 import QR.Spec.Render
+import QR.Proofs.Frame
 /-
 C16 - get_matrix frames the symbol with exactly `border` light modules.
 -/
@@ -15,5 +16,38 @@ theorem C16_rows (M : Mods) (border : Nat) : (getMatrix M border).length = M.len
   split
   · simp_all
   · simp; omega
+
+/-- **C16**: for every n x n module matrix and every border, `get_matrix()` is exactly the symbol framed by `border`
+light modules on each side (`Spec.frame`, defined pointwise by `Spec.framed`: position (r, c) is dark iff it lies
+inside the n x n window starting at (border, border) and the module there is dark).  For `border = 0` this says that
+`M` itself is its own n x n table, which is where the shape hypotheses are needed. -/
+theorem C16_frame (M : List (List Bool)) (n border : Nat)
+    (hlen : M.length = n) (hrow : ∀ row ∈ M, row.length = n) :
+    getMatrix M border = Spec.frame M n border :=
+  Proofs.Frame.getMatrix_eq_frame M n border hlen hrow
+
+/-- the result is square of side n + 2*border -/
+theorem C16_shape (M : List (List Bool)) (n border : Nat)
+    (hlen : M.length = n) (hrow : ∀ row ∈ M, row.length = n) :
+    (getMatrix M border).length = n + 2 * border ∧ ∀ row ∈ getMatrix M border, row.length = n + 2 * border :=
+  ⟨Proofs.Frame.getMatrix_length M n border hlen hrow, Proofs.Frame.getMatrix_row_length M n border hlen hrow⟩
+
+/-- pointwise form, for all `r c` (outside the result both sides are light) -/
+theorem C16_pointwise (M : List (List Bool)) (n border : Nat)
+    (hlen : M.length = n) (hrow : ∀ row ∈ M, row.length = n) (r c : Nat) :
+    ((getMatrix M border).getD r []).getD c false = Spec.framed M n border r c :=
+  Proofs.Frame.getMatrix_getD M n border hlen hrow r c
+
+/-- non-vacuity: a concrete 2 x 2 symbol with border 1; the frame is light and the symbol is kept -/
+example : getMatrix [[true, false], [true, true]] 1 =
+    [[false, false, false, false], [false, true, false, false], [false, true, true, false],
+     [false, false, false, false]] := by decide
+example : Spec.frame [[true, false], [true, true]] 2 1 =
+    [[false, false, false, false], [false, true, false, false], [false, true, true, false],
+     [false, false, false, false]] := by decide
+example : getMatrix [[true, false], [true, true]] 1 = Spec.frame [[true, false], [true, true]] 2 1 :=
+  C16_frame _ 2 1 rfl (by decide)
+/-- the shape hypotheses matter: a ragged "matrix" is not its own frame -/
+example : getMatrix [[true], [false, true]] 0 ≠ Spec.frame [[true], [false, true]] 2 0 := by decide
 
 end QR.Props
